@@ -676,3 +676,7 @@ package xpath
 //@   nopanic
 //@   ensures implies(res.runErr != nil, result1 == res.runErr)
 //@   ensures implies(res.runErr == nil && res.value == nil, result1 != nil)
+
+// Reporting a compile error never panics, whatever the lexer left as the unparsed remainder.
+//@ func (*CommonLex).CreateProgram
+//@   requires lexer != nil && lexer.progBldr != nil
